@@ -49,9 +49,10 @@ type Script struct {
 	ID          string         `json:"id"`
 	Mode        string         `json:"mode"` // reader | cg
 	Topics      map[string]int `json:"topics"`
-	Records     int            `json:"records"`        // records initially stored per partition
-	QCap        int            `json:"qcap,omitempty"` // Reader.QueueCapacity (default 10)
-	StartOffset int64          `json:"startOffset"`    // -2 first, -1 last
+	Records     int            `json:"records"`                    // records initially stored per partition
+	QCap        int            `json:"qcap,omitempty"`             // Reader.QueueCapacity (default 10)
+	FetchOrder  string         `json:"offsetFetchOrder,omitempty"` // "reverse": the coordinator answers OffsetFetch in reverse order
+	StartOffset int64          `json:"startOffset"`                // -2 first, -1 last
 	CommitMs    int            `json:"commitIntervalMs"`
 	HeartbeatMs int            `json:"heartbeatMs"`
 	BackoffMs   int            `json:"backoffMs"`
@@ -647,6 +648,7 @@ func Run(sc *Script) []trace.Event {
 		inject: map[string][]injection{}, counts: map[string]int{}, gates: map[string]chan struct{}{}, arrived: map[string]chan struct{}{}, lastFetch: map[string]time.Time{}}
 	r.net.Name = fmt.Sprintf("g%d", atomic.AddInt64(&counter, 1))
 	r.cl = fakekafka.NewCluster(r.net, 2)
+	r.cl.OffsetFetchOrder = sc.FetchOrder
 	for t := range sc.Topics {
 		r.topics = append(r.topics, t)
 	}
